@@ -255,9 +255,10 @@ func (g *Gen) structLeafNames(t types.Type, out *[]structLeaf, pathFn func(addr 
 }
 
 type structLeaf struct {
-	name string
-	sort string
-	addr func(string) string
+	name   string
+	sort   string
+	addr   func(string) string
+	nested string
 }
 
 func (g *Gen) appendStructs(st *State, et types.Type, s, x, r *Val, inplace, fa string) {
@@ -421,7 +422,7 @@ func (g *Gen) callWithSpec(st *State, c *ssa.Call, sp *FuncSpec, fn *ssa.Functio
 	env.cur, env.old = pre, pre
 	calleeName := sp.Key
 	for _, cl := range sp.Requires {
-		for _, part := range splitGoal(cl.E) {
+		for _, part := range splitGoal(g.P.expand(cl.E)) {
 			t := g.evalBool(env, part)
 			lb := cl.Name
 			if lb == "" {
@@ -547,7 +548,8 @@ func (g *Gen) havocLoc(st *State, env *Env, e *SExpr) {
 			s := g.eval(env, e.Args[0])
 			et := elemTypeOf(s.T)
 			if kindOf(et) == KStruct {
-				unsup("modifies contents() of struct slice")
+				g.havocStructElems(st, et, s.Arr)
+				return
 			}
 			sfx, kinds := leafComps(et)
 			for i, sf := range sfx {
@@ -664,3 +666,24 @@ func (g *Gen) applyUpdates(st *State, pre *State, env *Env, sp *FuncSpec) {
 }
 
 var _ = token.NoPos
+
+
+// havocStructElems makes every field of every element of struct array arr arbitrary; all other
+// addresses of the same field arrays keep their values.
+func (g *Gen) havocStructElems(st *State, et types.Type, arr string) {
+	var leaves []structLeaf
+	g.structLeafNames(et, &leaves, func(a string) string { return a })
+	_ = g.elemAddr(et, "0", "0") // make sure ea / ea^a are declared
+	tag := g.P.tagOf("ea|" + typeName(et))
+	inva := sym("ea^a|" + typeName(et))
+	for _, lf := range leaves {
+		srt := "(Array Int " + lf.sort + ")"
+		g.setHeapSort(lf.name, srt)
+		old := g.heapSym(st.heap, lf.name)
+		nw := g.fresh(lf.name, srt)
+		if lf.nested == "" {
+			g.emit(fmt.Sprintf("(assert (forall ((p Int)) (! (=> (not (and (= (%s p) %s) (= (subtag p) %d))) (= (select %s p) (select %s p))) :pattern ((select %s p)))))", inva, arr, tag, nw, old, nw))
+		}
+		st.heap.m[lf.name] = nw
+	}
+}
